@@ -35,18 +35,36 @@ def cmat(C):
     return [[[int(round(v.real)), int(round(v.imag))] for v in row] for row in C]
 
 
+_LAYOUT = [0]
+
+
 def embed(fn, F):
     """call the code's embedding on float array (m,n,4); returns python int lists
     (raises ValueError if the result is not integral)."""
     u = lib().utils
+    # the argument's MEMORY LAYOUT cycles through C order, Fortran order, a transposed view (what the library's own
+    # quat_hermitian returns) and a strided slice: the embedding is a function of the values only
+    _LAYOUT[0] += 1
+    how = _LAYOUT[0] % 4
+
+    def lay(a):
+        if how == 1:
+            return np.asfortranarray(a)
+        if how == 2:
+            return np.ascontiguousarray(a.T).T
+        if how == 3 and a.ndim == 2:
+            big = np.zeros((2 * a.shape[0], 2 * a.shape[1]), dtype=a.dtype)
+            big[::2, ::2] = a
+            return big[::2, ::2]
+        return a
     if fn == "real_expand":
-        R = u.real_expand(q_from_float(F))
+        R = u.real_expand(lay(q_from_float(F)))
     elif fn == "Realp":
-        R = u.Realp(*[np.ascontiguousarray(F[..., c]) for c in range(4)])
+        R = u.Realp(*[lay(np.ascontiguousarray(F[..., c])) for c in range(4)])
     elif fn == "Realp.scalar":
         R = u.Realp(*[float(F[0, 0, c]) for c in range(4)])
     else:
-        R = u.quaternion_to_complex_adjoint(q_from_float(F))
+        R = u.quaternion_to_complex_adjoint(lay(q_from_float(F)))
     R = np.asarray(R)
     if np.iscomplexobj(R):
         if not (np.array_equal(np.rint(R.real), R.real) and np.array_equal(np.rint(R.imag), R.imag)):
